@@ -447,10 +447,18 @@ pub fn exec_hop(ctx: &HCtx, verb: &str, m: &BTreeMap<String, String>) -> String 
     // metadata mutations with both forms (`Group::store_metadata` / `async_store_metadata`, `Group|Array::erase_metadata` /
     // `async_erase_metadata`): the synchronous form runs, the store is put back, the asynchronous form runs; outcomes and
     // resulting stores (keys and bytes) are compared
-    if (verb == "mkgroup" && m["v"] == "3") || verb == "rmmeta" {
+    if (verb == "mkgroup" && m["v"] == "3") || verb == "rmmeta" || verb == "setattrs" {
         let before = dump(&ctx.inner);
         let s = guarded(|| match verb {
             "mkgroup" => match Group::new_with_metadata(store.clone(), &p, GroupMetadata::V3(GroupMetadataV3::new())) { Ok(g) => ru(g.store_metadata()), Err(_) => "err-path".into() },
+            "setattrs" => {
+                // the node's attributes replaced by `n` entries and its metadata stored (V2: `.zattrs` written / removed)
+                let n: usize = m["n"].parse().unwrap();
+                let attrs: serde_json::Map<String, serde_json::Value> = (0..n).map(|i| (format!("k{}", i), serde_json::Value::from(i as u64))).collect();
+                if let Ok(mut g) = Group::open(store.clone(), &p) { { let at = g.attributes_mut(); at.clear(); at.extend(attrs); } return ru(g.store_metadata()); }
+                if let Ok(mut a) = Array::open(store.clone(), &p) { { let at = a.attributes_mut(); at.clear(); at.extend(attrs); } return ru(a.store_metadata()); }
+                "none".into()
+            }
             _ => {
                 if let Ok(g) = Group::open(store.clone(), &p) { return ru(g.erase_metadata()); }
                 if let Ok(a) = Array::open(store.clone(), &p) { return ru(a.erase_metadata()); }
@@ -461,6 +469,13 @@ pub fn exec_hop(ctx: &HCtx, verb: &str, m: &BTreeMap<String, String>) -> String 
         restore(&ctx.inner, &before);
         let a = guarded(|| ctx.rt.block_on(async { match verb {
             "mkgroup" => match Group::new_with_metadata(astore.clone(), &p, GroupMetadata::V3(GroupMetadataV3::new())) { Ok(g) => ru(g.async_store_metadata().await), Err(_) => "err-path".into() },
+            "setattrs" => {
+                let n: usize = m["n"].parse().unwrap();
+                let attrs: serde_json::Map<String, serde_json::Value> = (0..n).map(|i| (format!("k{}", i), serde_json::Value::from(i as u64))).collect();
+                if let Ok(mut g) = Group::async_open(astore.clone(), &p).await { { let at = g.attributes_mut(); at.clear(); at.extend(attrs); } return ru(g.async_store_metadata().await); }
+                if let Ok(mut a) = Array::async_open(astore.clone(), &p).await { { let at = a.attributes_mut(); at.clear(); at.extend(attrs); } return ru(a.async_store_metadata().await); }
+                "none".into()
+            }
             _ => {
                 if let Ok(g) = Group::async_open(astore.clone(), &p).await { return ru(g.async_erase_metadata().await); }
                 if let Ok(a) = Array::async_open(astore.clone(), &p).await { return ru(a.async_erase_metadata().await); }
@@ -623,6 +638,25 @@ pub fn generate(tier: &str, seed: u64) -> Vec<String> {
         gen_full_reads(&mut rng, &cfg, &mut out, "c07");
         out.push(format!("c07 op enc_chunks box={}+{}", nl(&vec![0; gs.len()]), nl(&gs)));
     }
+    // packbits with a bit range (own stream): whole-array write, then partial reads of every kind through both forms
+    {
+        let mut rp = Rng::new(seed ^ 0xC07_9B);
+        for _ in 0..(if thorough { 150 } else { 15 }) {
+            let cfg = crate::arr::gen_packbits_cfg(&mut rp);
+            out.push(cfg.cfg_line("c07", "memory", false, false, &format!(" lat={}", rp.below(100000))));
+            out.push(format!("c07 op store_array_subset r={}+{} data={}", nl(&vec![0; cfg.shape.len()]), nl(&cfg.shape), gen_data(&mut rp, &cfg, cfg.shape.iter().product())));
+            let gs = cfg.grid_shape();
+            for _ in 0..6 {
+                let c: Vec<u64> = gs.iter().map(|&g| rp.below(g.max(1))).collect();
+                let cshape = cfg.chunk_origin_shape(&c).1;
+                let rs: Vec<String> = (0..rp.range(1, 3)).map(|_| { let mut s = vec![]; let mut n = vec![]; for &e in &cshape { let st = rp.below(e); s.push(st); n.push(rp.range(1, e - st)); } format!("{}+{}", nl(&s), nl(&n)) }).collect();
+                out.push(format!("c07 op pdx c={} rs={}", nl(&c), rs.join("|")));
+                out.push(format!("c07 op retrieve_chunk_subset c={} r={}", nl(&c), rs[0]));
+                out.push(format!("c07 {}", gen_read_op(&mut rp, &cfg)));
+            }
+            gen_full_reads(&mut rp, &cfg, &mut out, "c07");
+        }
+    }
     // hierarchies
     let nh = if thorough { 1500 } else { 150 };
     for h in 0..nh {
@@ -644,10 +678,15 @@ pub fn generate(tier: &str, seed: u64) -> Vec<String> {
                 13 => out.push(format!("c07 hop objs p={}", rng.pick(&paths))),
                 14 => out.push(format!("c07 hop exists p={}", if rng.chance(1, 2) { child } else { parent })),
                 // the metadata of a node erased through the API of its kind (group or array; `none` where there is no node)
-                15 | 16 => out.push(format!("c07 hop rmmeta p={}", if rng.chance(1, 3) { child } else { rng.pick(&paths).clone() })),
+                15 | 16 => {
+                    // (own stream) attributes set / cleared on a node and stored, through both forms; then the metadata erased
+                    if rx.chance(1, 2) { out.push(format!("c07 hop setattrs p={} n={}", if rx.chance(1, 4) { child.clone() } else { rx.pick(&paths).clone() }, rx.below(3))); }
+                    out.push(format!("c07 hop rmmeta p={}", if rng.chance(1, 3) { child } else { rng.pick(&paths).clone() }))
+                }
                 _ => out.push(format!("c07 hop tree p={}", rng.pick(&paths))),
             }
         }
+        for p in &paths { if rx.chance(1, 2) { out.push(format!("c07 hop setattrs p={} n={}", p, rx.below(3))); out.push(format!("c07 hop setattrs p={} n=0", p)); } }
         out.push("c07 hop keys".into());
         for p in &paths { out.push(format!("c07 hop children p={} rec=1", p)); out.push(format!("c07 hop paths p={}", p)); out.push(format!("c07 hop objs p={}", p)); }
         out.push("c07 hop tree p=/".into());
